@@ -38,7 +38,7 @@ var c15Specs = map[string]c15Spec{
 	"FieldsSetRequired":    {writes: []string{"StructField.Required", "Type.Nullable", "StructType.Fields"}},
 	"FieldsSetNotRequired": {writes: []string{"StructField.Required", "Type.Nullable", "StructType.Fields"}},
 	"FieldsSetDefault":     {writes: []string{"Type.Default", "StructType.Fields"}},
-	"ReplaceReference":     {writes: []string{"Type.Nullable", "Type.Default"}, note: "both are set on the freshly built reference that takes the place of the matched one (copied from it)"},
+	"ReplaceReference":     {writes: []string{"Type.Nullable", "Type.Default", "Type.Hints", "ConstantReferenceType.ReferredPkg", "ConstantReferenceType.ReferredType"}, note: "every usage of the reference: type references are rebuilt (nullability, default and hints carried over), constant references are redirected in place"},
 	"ConstantToEnum":       {writes: []string{"Object.Type"}},
 	"TrimEnumValues":       {writes: []string{"EnumValue.Value"}, all: true},
 	"HintObject":           {writes: []string{"Type.Hints"}},
@@ -195,6 +195,7 @@ func checkC15(ctx *Ctx, r *Report) {
 	c15ConfiguredHintWins(ctx, r)
 	c03MapOrderIn(ctx, r, []string{"internal/ast/compiler", "internal/yaml"})
 	c05Visitor(ctx, r)
+	c15ReferenceSiblings(ctx, r)
 	c07ConfigOwnership(ctx, r)
 }
 
@@ -811,4 +812,175 @@ func c15ConfiguredHintWins(ctx *Ctx, r *Report) {
 	}
 	r.Check(!lastExisting.IsValid() || lastExisting < lastConfigured, "effects/configured-value-wins", "HintObject.processObject", fd.Pos(), "the configured hints are stored last",
 		"HintObject.processObject copies the object's existing hints over the configured ones: for a key the object already carries (implements_variant set by a loader, an earlier hint_object) the transformation has no effect while its trail claims the new value")
+}
+
+// c15ReferenceSiblings: three clauses on the passes that rewrite references by name (found by a bug hunt).
+//
+//	selectors/mapping-entry-by-branch   a discriminator mapping entry designates a branch of its union; a pass that
+//	                                    rewrites entries by name takes the package from that branch (a loop over
+//	                                    .Branches inside the loop over .DiscriminatorMapping), not from the schema
+//	                                    that holds the union.
+//	siblings/ref-and-constant-ref       a Visitor whose OnRef callback rewrites the name of references (stores into
+//	                                    ReferredType / ReferredPkg, or returns a freshly built reference) also has an
+//	                                    OnConstantRef callback: `kind: Kind & "a"` is a usage of Kind too.
+//	effects/rebuilt-reference-keeps-hints  a reference rebuilt with ast.NewRef in place of the visited one carries
+//	                                    the hints of the original over (beside Nullable and Default, checked elsewhere).
+func c15ReferenceSiblings(ctx *Ctx, r *Report) {
+	p := ctx.Pkg("internal/ast/compiler")
+	if p == nil {
+		r.Undecided("anchor lost: internal/ast/compiler")
+		return
+	}
+	info := p.TypesInfo
+	// --- mapping entries
+	loops := 0
+	ctx.AllFuncDecls(func(pk *packages.Package, fd *ast.FuncDecl, obj *types.Func) {
+		if pk != p || fd.Body == nil {
+			return
+		}
+		seen := 0
+		ast.Inspect(fd.Body, func(n ast.Node) bool {
+			rs, ok := n.(*ast.RangeStmt)
+			if !ok {
+				return true
+			}
+			f := fieldOf(info, rs.X)
+			if f == nil || f.Name() != "DiscriminatorMapping" {
+				return true
+			}
+			// does the body store a mapping entry?
+			stores := false
+			ast.Inspect(rs.Body, func(k ast.Node) bool {
+				if as, ok := k.(*ast.AssignStmt); ok {
+					for _, l := range as.Lhs {
+						if ix, ok := ast.Unparen(l).(*ast.IndexExpr); ok {
+							if mt, ok := info.TypeOf(ix.X).Underlying().(*types.Map); ok {
+								if b, ok := mt.Elem().Underlying().(*types.Basic); ok && b.Kind() == types.String {
+									stores = true
+								}
+							}
+						}
+					}
+				}
+				return true
+			})
+			if !stores {
+				return true
+			}
+			loops++
+			seen++
+			byBranch := false
+			ast.Inspect(rs.Body, func(k ast.Node) bool {
+				if inner, ok := k.(*ast.RangeStmt); ok {
+					if bf := fieldOf(info, inner.X); bf != nil && bf.Name() == "Branches" {
+						byBranch = true
+					}
+				}
+				return true
+			})
+			cons := ctx.FuncName(obj) + " rewrites mapping entries"
+			if seen > 1 {
+				cons = fmt.Sprintf("%s #%d", cons, seen)
+			}
+			r.Check(byBranch, "selectors/mapping-entry-by-branch", cons, rs.Pos(),
+				"the package of an entry is looked up on the branch it designates",
+				"the loop rewrites discriminator mapping entries by name without looking at the branches of the union: an entry designates a branch, which can belong to another package than the schema holding the union — a same-named local object makes the pass rewrite an entry it must leave alone, and a renamed foreign branch leaves its entry behind")
+			return true
+		})
+	})
+	r.Count("loops rewriting discriminator mapping entries", loops)
+	r.Floor("loops rewriting discriminator mapping entries", 3)
+
+	// --- OnRef / OnConstantRef
+	visitorT := ctx.LookupType("internal/ast/compiler", "Visitor")
+	lits := 0
+	for _, f := range p.Syntax {
+		ast.Inspect(f, func(n ast.Node) bool {
+			cl, ok := n.(*ast.CompositeLit)
+			if !ok || namedOf(info.TypeOf(cl)) != visitorT {
+				return true
+			}
+			var onRef ast.Expr
+			hasConst := false
+			for _, el := range cl.Elts {
+				if kv, ok := el.(*ast.KeyValueExpr); ok {
+					if id, ok := kv.Key.(*ast.Ident); ok {
+						switch id.Name {
+						case "OnRef":
+							onRef = kv.Value
+						case "OnConstantRef":
+							hasConst = true
+						}
+					}
+				}
+			}
+			if onRef == nil {
+				return true
+			}
+			var body *ast.BlockStmt
+			name := exprString(onRef)
+			switch v := ast.Unparen(onRef).(type) {
+			case *ast.FuncLit:
+				body = v.Body
+				name = "closure"
+			case *ast.SelectorExpr:
+				if fn, _ := info.Uses[v.Sel].(*types.Func); fn != nil {
+					if fd, _ := ctx.DeclOf(fn); fd != nil {
+						body = fd.Body
+					}
+				}
+			}
+			if body == nil {
+				return true
+			}
+			renames, rebuilt := false, []*ast.CallExpr{}
+			ast.Inspect(body, func(k ast.Node) bool {
+				switch x := k.(type) {
+				case *ast.AssignStmt:
+					for _, l := range x.Lhs {
+						if ff := fieldOf(info, l); ff != nil && (ff.Name() == "ReferredType" || ff.Name() == "ReferredPkg") {
+							renames = true
+						}
+					}
+				case *ast.CallExpr:
+					if fn := callee(info, x); fn != nil && fn.Name() == "NewRef" && fn.Pkg() != nil && fn.Pkg().Path() == astPkgPath {
+						renames = true
+						rebuilt = append(rebuilt, x)
+					}
+				}
+				return true
+			})
+			if !renames {
+				return true
+			}
+			lits++
+			where := ctx.Pos(cl.Pos())
+			r.Check(hasConst, "siblings/ref-and-constant-ref", "Visitor at "+strings.SplitN(where, ":", 2)[0]+" ("+name+") handles constant references", cl.Pos(),
+				"the visitor that rewrites references by name has an OnConstantRef callback too",
+				"the visitor rewrites the name of type references ("+name+") and has no OnConstantRef callback: a constant reference to the same object (`kind: Kind & \"a\"`) keeps the old name — with the object renamed, replaced or omitted the generated code refers to a type that does not exist")
+			// rebuilt references keep the hints
+			for _, c := range rebuilt {
+				keeps := false
+				ast.Inspect(body, func(k ast.Node) bool {
+					switch x := k.(type) {
+					case *ast.RangeStmt:
+						if ff := fieldOf(info, x.X); ff != nil && ff.Name() == "Hints" {
+							keeps = true
+						}
+					case *ast.CallExpr:
+						if fn := callee(info, x); fn != nil && fn.Name() == "Hints" && fn.Pkg() != nil && fn.Pkg().Path() == astPkgPath {
+							keeps = true
+						}
+					}
+					return true
+				})
+				r.Check(keeps, "effects/rebuilt-reference-keeps-hints", name+" rebuilds a reference with its hints", c.Pos(),
+					"the hints of the visited reference are copied onto the new one",
+					"the callback returns ast.NewRef(…) in place of the visited reference without its Hints: hints set on the field's type (by the schema or by hint passes) are lost wherever the transformation applies")
+			}
+			return true
+		})
+	}
+	r.Count("visitors rewriting references by name", lits)
+	r.Floor("visitors rewriting references by name", 3)
 }
